@@ -13,8 +13,9 @@ PAIRS = ["RK45CKSolver", "DOPRI45", "HeunEulerSolver", "RK8713MSolver", "RK108So
 RICH = ["RICH:EulerSolver:3", "RICH:MidpointSolver:3", "RICH:RK4Solver:3", "RICH:ImplicitMidpoint:3"]
 
 # per-method constants C_m (error / (tolerance * amplification)); frozen table, see DESIGN 6 -- 10x the worst ratio observed on the repaired tree, rounded up
-C_M = {"default": 1e3, "RK1412Solver": 1e4, "RK108Solver": 1e4, "RadauIIA19": 1e4, "RICH:EulerSolver:3": 1e4, "RICH:MidpointSolver:3": 1e4, "RICH:ImplicitMidpoint:3": 1e4,
-       "RICH:RK4Solver:3": 1e4, "HeunEulerSolver": 1e3, "LobattoIIIC4": 1e4, "RadauIIA5": 1e4}
+C_M = {"default": 20.0, "RICH:EulerSolver:3": 100.0, "RICH:MidpointSolver:3": 100.0, "RICH:ImplicitMidpoint:3": 100.0, "RICH:RK4Solver:3": 100.0}
+# calibration (repaired tree, quick + thorough tiers): worst observed error/(tol*kappa) is 0.14 for the embedded pairs and 2.2 for the Richardson
+# wrappers; C_m = 10x that, rounded up (20 / 100).  A seeded swap of atol and rtol raises the ratio to 50 .. 670.
 
 
 def method_of(name):
@@ -63,12 +64,16 @@ def build(case, wrap_step=False):
     f, ex, kappa, jac = problem(case["problem"])
     t0, tf = case["span"]
     dtype = np.float64
-    y0 = np.asarray(ex(t0), dtype=dtype)
+    amp = case.get("amp", 1.0)          # linear problems only: the solution scales with the initial state
+    y0 = np.asarray(ex(t0), dtype=dtype) * dtype(amp)
     rhs = de.DiffRHS(f)
     if case.get("jac", True) and jac is not None:
         rhs.hook_jacobian_call(jac)
-    a = de.OdeSystem(rhs, y0=y0, t=(dtype(t0), dtype(tf)), dt=dtype(case["dt0"]), rtol=dtype(case["tol"]), atol=dtype(case["tol"]))
+    a = de.OdeSystem(rhs, y0=y0, t=(dtype(t0), dtype(tf)), dt=dtype(case["dt0"]), rtol=dtype(case.get("rtol", case["tol"])), atol=dtype(case.get("atol", case["tol"])))
     a.method = method_of(case["method"])
+    if amp != 1.0:
+        ex0 = ex
+        ex = lambda t: ex0(t) * LD(amp)
     return a, ex, kappa
 
 
@@ -110,9 +115,12 @@ def accuracy_case(case):
         return r
     # O1 / O2 accuracy
     T = np.asarray(a.t); Y = np.asarray(a.y, dtype=LD)
-    err = max(float(np.max(np.abs(Y[k] - ex(T[k])) / (1.0 + np.abs(ex(T[k]))))) for k in range(len(T)))
+    rt, at = case.get("rtol", case["tol"]), case.get("atol", case["tol"])
+    # error measured in units of the tolerance the user asked for at that state: atol + rtol*|y|
+    err = max(float(np.max(np.abs(Y[k] - ex(T[k])))) / (at + rt * float(np.max(np.abs(ex(T[k]))))) for k in range(len(T))) * case["tol"]     # |y| = size of the state (max norm)
+    err = err / 2.0 if "rtol" not in case else err       # (rtol = atol = tol: atol + rtol|y| = tol (1 + |y|))
     C = C_M.get(name, C_M["default"])
-    bound = C * case["tol"] * kappa(t0, tf) + 1e3 * 2.2e-16 * len(T)
+    bound = C * case["tol"] * kappa(t0, tf) * (1.0 if "rtol" in case else 0.5) + 1e3 * 2.2e-16 * len(T) * case["tol"] / min(at, case["tol"])
     ratio = err / (case["tol"] * kappa(t0, tf))
     if err > bound:
         r.v("C05/accuracy/%s" % name, "error against the exact solution is bounded by a modest constant times (atol + rtol|y|) times the problem's amplification", case,
@@ -221,6 +229,16 @@ def run(ctx):
                             skipped += 1
                             continue
                         cases.append(dict(section="acc", method=m, problem=prob, span=[t0, tf], tol=tol, dt0=dt0))
+    # unequal tolerances on solutions far from unit size (the controller must weigh atol and rtol as documented: atol + rtol*|y|)
+    for m in PAIRS + RICH[:3]:
+        for prob in ("rotation", "damped"):
+            for (t0, tf) in ((0.0, 2.0), (2.0, 0.0)):
+                for amp, rt, at in ((1e-4, 1e-5, 1e-12), (1e4, 1e-10, 1e-4), (1e-3, 1e-6, 1e-3), (1e3, 1e-3, 1e-9)):
+                    if m in ("HeunEulerSolver", "RICH:EulerSolver:3", "RICH:MidpointSolver:3") and min(rt, at / amp) < 1e-7:
+                        continue
+                    if ctx.quick and m in ("RadauIIA19", "LobattoIIIC4") and prob == "damped":
+                        continue
+                    cases.append(dict(section="acc", method=m, problem=prob, span=[t0, tf], tol=rt, rtol=rt, atol=at, amp=amp, dt0=0.1))
     for m in PAIRS + RICH[:3]:
         for span in ([0.0, 2.0], [0.0, -2.0], [-3.0, -1.0], [3.0, 1.0]):
             for tol in (1e-6, 1e-9):
